@@ -14,7 +14,10 @@ RULE = ('cases = (host, N, diff_order, lam, banded_solver, user/default weights,
         'iteration (captured at PenalizedSystem.solve) is checked, in exact rational arithmetic inside the Lean driver, against the '
         'DOCUMENTED system built from the specification (W + lam D\'D and the iasls/drpls/aspls variants; Kronecker form in 2-D) with the '
         'weights in force at that step (recorded from the reweighting rule); the captured band arrays are compared with the Lean '
-        'assembly model; converged runs: returned baseline with returned weights; non-trivial = N > d + 1; distinct by canonical tuple')
+        'assembly model; converged runs: returned baseline with returned weights; non-trivial = N > d + 1; distinct by canonical tuple; '
+        'further stages: the sparse 2-D matrix handed to direct_solve against the Lean model asm2d (exact on dyadic inputs); the two band '
+        'arrays / right-hand sides / outputs of every jbcd pass against asmJbcd; the loops with state (Model/LoopS) fed the decisions '
+        'of real runs predict which iterate is returned as weights and which solve as baseline (single loop, brpls, jbcd)')
 ASSUMPTIONS = [
     'the banded solvers (LAPACK solveh_banded/solve_banded, pentapy, SuperLU) are trusted only through the exact normwise backward '
     'error of each output: threshold 1e-11 (measured < 1e-13 on the unchanged tree over the grid; a misplaced band entry gives > 1e-6)',
@@ -33,6 +36,8 @@ class Capture:
     def __init__(self):
         self.solves = []
         self.rules = []
+        self.flags = []          # per rule call: did it signal the early exit
+        self.outs = []           # per rule call: the full output
         self.saved = []
 
     def __enter__(self):
@@ -56,6 +61,8 @@ class Capture:
                     out = __fn(*a, **k)
                     w = out[0] if isinstance(out, tuple) else out
                     cap.rules.append(np.array(w, dtype=float, copy=True))
+                    cap.flags.append(bool(out[-1]) if isinstance(out, tuple) and isinstance(out[-1], (bool, np.bool_)) else False)
+                    cap.outs.append(out)
                     return out
                 setattr(W, nm, wrapper)
                 self.saved.append((W, nm, fn))
@@ -262,6 +269,271 @@ def correspond(ctx):
                     break
                 lines.append(f'c06.berr2d {m} {n} {dr} {dc} {q(lamr)} {q(lamc)} {qs(w_seq[k])} {qs(Y.ravel())} {qs(np.asarray(v).ravel())}')
                 metas.append(('berr', {'host': '2d.' + host, 'kind': '2d', 'shape': [m, n], 'd': [dr, dc], 'lam': [lamr, lamc], 'step': k, 'kw': {}, 'x': [], 'y': []}))
+    # jbcd: two banded systems per iteration, (gamma_k P + I) s = y - v_old and (2 beta_k P + (1 + 2 alpha) I) v = y - s + 2 alpha Op, with
+    # gamma_k = gamma * gamma_mult^k, beta_k = beta * beta_mult^k (updated in floating point as the code does).  Captured band arrays against
+    # the Lean model `asmJbcd`, right-hand sides against the formulas, every output certified against the matrix the model DENOTES.
+    # NOTE: the documentation states 2*gamma for the signal system; the code uses gamma (theorem jbcd_signal_ne_documented).
+    from scipy.ndimage import grey_opening
+    from pybaselines.morphological import _avg_opening
+    for d in (1, 2, 3):
+        for n in sorted(set([d + 2, 2 * d + 2, 2 * d + 3, 12, 40])):
+            for solver in (1, 2, 3, 4):
+                if not ctx.thorough and rng.random() < 0.5:
+                    continue
+                x, y = data_1d(rng, n)
+                hw = int(rng.integers(1, 4))
+                dyadic = rng.random() < 0.5
+                if dyadic:
+                    alpha_, beta_, gamma_ = float(2.0 ** int(rng.integers(-4, 3))), float(2.0 ** int(rng.integers(-2, 8))), float(2.0 ** int(rng.integers(-3, 5)))
+                    bm, gm = float(rng.choice([1.0, 2.0, 1.5])), float(rng.choice([1.0, 0.5, 0.75]))
+                else:
+                    alpha_, beta_, gamma_ = float(rng.choice([0.1, 0.03, 1.7])), float(10.0 ** rng.uniform(-1, 4)), float(10.0 ** rng.uniform(-2, 2))
+                    bm, gm = 1.1, 0.909
+                robust = bool(rng.random() < 0.7)
+                iters = int(rng.integers(0, 4))
+                fit = Baseline(x)
+                fit.banded_solver = solver
+                with Capture() as cap:
+                    try:
+                        with np.errstate(all='ignore'):
+                            b, p = fit.jbcd(y, half_window=hw, alpha=alpha_, beta=beta_, gamma=gamma_, beta_mult=bm, gamma_mult=gm, diff_order=d,
+                                            max_iter=iters, tol=0.0, tol_2=0.0, robust_opening=robust)
+                    except Exception as ex:
+                        ctx.count('jbcd-raised:' + type(ex).__name__)
+                        continue
+                ctx.case(('jbcd', n, d, solver, hw, alpha_, beta_, gamma_, bm, gm, iters, robust), nontrivial=n > d + 1,
+                         sample={'host': 'jbcd', 'N': n, 'diff_order': d, 'banded_solver': solver, 'alpha': alpha_, 'beta': beta_, 'gamma': gamma_,
+                                 'solves_checked': len(cap.solves)} if d == 2 and n == 12 else None)
+                ctx.count('host:jbcd')
+                ctx.count('jbcd-layout:' + ('lower' if cap.solves and cap.solves[0]['lower'] else 'reversed' if cap.solves and cap.solves[0]['reversed'] else 'full'))
+                opening = grey_opening(y, 2 * hw + 1)
+                if robust:
+                    opening = np.minimum(opening, _avg_opening(y, hw, opening))
+                partial = (2 * alpha_) * opening
+                g, bt = gamma_, beta_
+                v_old = opening
+                meta0 = {'host': 'jbcd', 'kind': 'jbcd', 'n': n, 'd': d, 'solver': solver, 'x': x.tolist(), 'y': y.tolist(),
+                         'kw': {'half_window': hw, 'alpha': alpha_, 'beta': beta_, 'gamma': gamma_, 'beta_mult': bm, 'gamma_mult': gm, 'max_iter': iters,
+                                'robust_opening': robust}}
+                if len(cap.solves) != 2 * (iters + 1):
+                    dis.append(Disagreement('c06.model', 'model:jbcd:solves', f'jbcd (N={n}, max_iter={iters}, tol=0): {len(cap.solves)} banded solves instead of '
+                                            f'{2 * (iters + 1)}', {k: v for k, v in meta0.items() if k not in ('x', 'y')}, False))
+                    continue
+                for k in range(iters + 1):
+                    s1, s2 = cap.solves[2 * k], cap.solves[2 * k + 1]
+                    if not (np.all(np.isfinite(s1['out'])) and np.all(np.isfinite(s2['out']))):
+                        break
+                    for which, sv, c_, diag_, rhs_want in (('signal', s1, g, 1.0, y - v_old),
+                                                             ('baseline', s2, 2 * bt, 1 + 2 * alpha_, y - s1['out'] + partial)):
+                        m = dict(meta0, step=f'{which} system, iteration {k}', lam=c_, which=which)
+                        lines.append(f'c06.asmjbcd {n} {d} {q(c_)} {q(diag_)} {int(sv["lower"])} {int(sv["reversed"])}')
+                        metas.append(('asmjbcd', m, sv['lhs'], dyadic))
+                        if not np.array_equal(sv['rhs'], rhs_want):
+                            dis.append(Disagreement('c06.model', f'model:jbcd:rhs:{which}', f'jbcd (N={n}, d={d}, {m["step"]}): the right-hand side handed to the solver '
+                                                    f'is not the documented one (max diff {float(np.max(np.abs(sv["rhs"] - rhs_want))):.3g})',
+                                                    {kk: v for kk, v in m.items() if kk not in ('x', 'y')}, False))
+                        # exact certificate against diag*I + c*D'D with the right-hand side actually used
+                        wv = [Fraction(float(diag_))] * n
+                        lines.append(berr_line('std', n, d, c_, 0.0, wv, [], [Fraction(float(t)) / wv[0] for t in sv['rhs']], sv['out']))
+                        metas.append(('berr', m))
+                    v_old = s2['out']
+                    g *= gm
+                    bt *= bm
+    # which weights the returned baseline was solved with (theorems converged_pair_solves / exhausted_returns_fresh_state /
+    # brpls_pair_solves / jbcd_pair_solves): the Lean loops with state, instantiated on indices and fed the decisions the real run took
+    # (recorded differences, early-exit flags), predict WHICH iterate is returned as weights and WHICH solve as baseline
+    BIG = '1' + '0' * 400
+    for host, kind in hosts:
+        for rep in range(4 if not ctx.thorough else 10):
+            n = int(rng.choice([12, 30, 80]))
+            d = int(rng.integers(2, 4)) if kind in ('iasls', 'drpls') else int(rng.integers(1, 4))
+            x, y = data_1d(rng, n)
+            if rng.random() < 0.35:
+                # noise-free smooth data: the rules of airpls / arpls / drpls / iarpls / aspls / lsrpls then signal their early exit
+                tt = np.linspace(0, 1, n)
+                y = [np.full(n, 3.0), 4 + 2 * tt, (tt - 0.5) ** 2, np.exp(3 * tt)][int(rng.integers(0, 4))]
+                ctx.count('loop-data:smooth')
+            lam = float(10.0 ** int(rng.integers(0, 7)))
+            max_iter = int(rng.choice([0, 1, 2, 5, 12, 40]))
+            tol = float(rng.choice([0.0, 1e-4, 1e-2, 3e-1, np.inf]))
+            uw = None if rng.random() < 0.6 else np.round(rng.uniform(0.05, 1, n) * 64) / 64
+            if rep == 0 and host in ('arpls', 'iarpls', 'aspls', 'lsrpls', 'drpls', 'airpls'):
+                # aimed at the early exit: smooth data, many passes allowed, a tolerance that is not met first
+                tt = np.linspace(0, 1, n)
+                y = [(tt - 0.5) ** 2, np.exp(3 * tt), 4 + 2 * tt][int(rng.integers(0, 3))]
+                lam, max_iter, tol, uw = float(rng.choice([1e-2, 1e2, 1e6])), 40, 1e-7, None
+            kw = dict(lam=lam, diff_order=d, max_iter=max_iter, tol=tol, weights=uw)
+            ualpha = None
+            if kind == 'aspls' and rng.random() < 0.4:
+                ualpha = np.round(rng.uniform(0.2, 1, n) * 64) / 64
+                kw['alpha'] = ualpha
+            with Capture() as cap:
+                try:
+                    with np.errstate(all='ignore'):
+                        b, p = getattr(Baseline(x), host)(y, **kw)
+                except Exception as ex:
+                    ctx.count('loop-raised:' + type(ex).__name__)
+                    continue
+            th = np.asarray(p['tol_history'], dtype=float)
+            pre = 1 if (kind == 'iasls' and uw is None) else 0         # iasls computes its first weights with the rule, before the loop
+            loop_rules, loop_flags, loop_outs = cap.rules[pre:], cap.flags[pre:], cap.outs[pre:]
+            if th.ndim != 1 or not np.all(np.isfinite(th)) or not cap.solves or len(loop_rules) != len(cap.solves):
+                ctx.count('loop-skipped')
+                continue
+            ctx.case(('loop', host, n, d, lam, max_iter, tol, uw is not None), nontrivial=True)
+            ctx.count('loop-host:' + host)
+            w_seq = [cap.rules[0] if pre else (np.ones(n) if uw is None else uw)] + loop_rules
+            a_seq = None
+            if kind == 'aspls':
+                a_seq = [np.ones(n) if ualpha is None else ualpha]
+                for o in loop_outs:
+                    ad = np.abs(o[1])
+                    with np.errstate(all='ignore'):
+                        a_seq.append(ad / ad.max())
+            exit_at = next((k for k, f in enumerate(loop_flags) if f), None)
+            lines.append(f'c06.loop {max_iter + 1} {q(tol) if np.isfinite(tol) else BIG} {qs(th)} {"N" if exit_at is None else exit_at}')
+            metas.append(('loop', {'host': host, 'kind': 'loop', 'n': n, 'd': d, 'lam': lam, 'solver': None, 'step': 'returned pair',
+                                   'kw': {k: (v.tolist() if isinstance(v, np.ndarray) else v) for k, v in kw.items()}, 'x': x.tolist(), 'y': y.tolist()},
+                          {'b': np.asarray(b), 'w': np.asarray(p['weights'], float), 'alpha': np.asarray(p['alpha'], float) if kind == 'aspls' else None,
+                           'len': len(th), 'w_seq': w_seq, 'a_seq': a_seq, 'outs': [sv['out'] for sv in cap.solves]}))
+    # brpls: nested loops
+    from pybaselines import whittaker as wh_mod
+    for rep in range(8 if not ctx.thorough else 30):
+        n = int(rng.choice([15, 40, 90]))
+        d = int(rng.integers(1, 4))
+        x, y = data_1d(rng, n)
+        lam = float(10.0 ** int(rng.integers(0, 7)))
+        max_iter, max_iter_2 = int(rng.choice([0, 1, 3, 10])), int(rng.choice([0, 1, 2, 6]))
+        tol, tol_2 = float(rng.choice([0.0, 1e-3, 5e-2, 1.0, np.inf])), float(rng.choice([0.0, 1e-3, 1e-1, np.inf]))
+        uw = None if rng.random() < 0.6 else np.round(rng.uniform(0.05, 1, n) * 64) / 64
+        rds = []
+        orig_rd = wh_mod.relative_difference
+
+        def rd(old, new, *a, __o=orig_rd, **k):
+            v = __o(old, new, *a, **k)
+            rds.append(float(v))
+            return v
+        wh_mod.relative_difference = rd
+        try:
+            with Capture() as cap:
+                with np.errstate(all='ignore'):
+                    b, p = Baseline(x).brpls(y, lam=lam, diff_order=d, max_iter=max_iter, tol=tol, max_iter_2=max_iter_2, tol_2=tol_2, weights=uw)
+        except Exception as ex:
+            ctx.count('brpls-raised:' + type(ex).__name__)
+            continue
+        finally:
+            wh_mod.relative_difference = orig_rd
+        T = len(cap.solves)
+        th = np.asarray(p['tol_history'], dtype=float)
+        if len(cap.rules) != T or T == 0:
+            continue
+        # translate what the run did into the decision strings (bookkeeping only: which branch each solve took, and whether the outer
+        # criterion held when the inner loop ended); the model decides from them what is returned
+        inner, outer = [], {}
+        t, ri, ok = 0, 0, True
+        for i in range(max_iter_2 + 1):
+            exited = False
+            for j in range(max_iter + 1):
+                if t >= T:
+                    ok = False
+                    break
+                if cap.flags[t]:
+                    inner.append('2')
+                    exited = True
+                    t += 1
+                    break
+                if ri >= len(rds):
+                    ok = False
+                    break
+                conv = rds[ri] < tol
+                ri += 1
+                inner.append('1' if conv else '0')
+                t += 1
+                if conv:
+                    break
+            if not ok or i >= th.shape[1]:
+                ok = False
+                break
+            stop_outer = bool(th[0, i] < (np.inf if exited else tol_2))
+            outer[t] = stop_outer
+            if stop_outer:
+                break
+        if not ok or t != T:
+            dis.append(Disagreement('c06.model', 'model:brpls:trace', f'brpls (N={n}, max_iter={max_iter}, max_iter_2={max_iter_2}, tol={tol}, tol_2={tol_2}): the run '
+                                    f'made {T} solves, the nested-loop skeleton accounts for {t}', {'n': n, 'max_iter': max_iter, 'max_iter_2': max_iter_2}, False))
+            continue
+        ctx.case(('brpls-loop', n, d, lam, max_iter, max_iter_2, tol, tol_2, uw is not None), nontrivial=True)
+        ctx.count('loop-host:brpls')
+        ostr = ''.join('1' if outer.get(w, False) else '0' for w in range(T + 2))
+        lines.append(f'c06.brloop {max_iter} {max_iter_2} {"".join(inner)} {ostr}')
+        metas.append(('brloop', {'host': 'brpls', 'kind': 'loop', 'n': n, 'd': d, 'lam': lam, 'solver': None, 'step': 'returned pair', 'x': x.tolist(), 'y': y.tolist(),
+                                 'kw': {'max_iter': max_iter, 'max_iter_2': max_iter_2, 'tol': tol, 'tol_2': tol_2, 'weights': None if uw is None else uw.tolist()}},
+                      {'b': np.asarray(b), 'w': np.asarray(p['weights'], float), 'y': y, 'w_seq': [np.ones(n) if uw is None else uw] + list(cap.rules),
+                       'outs': [sv['out'] for sv in cap.solves]}))
+    # jbcd: (baseline, signal) of the last pass
+    for rep in range(6 if not ctx.thorough else 20):
+        n = int(rng.choice([12, 40, 90]))
+        d = int(rng.integers(1, 4))
+        x, y = data_1d(rng, n)
+        max_iter = int(rng.choice([0, 1, 4, 15]))
+        tol, tol_2 = float(rng.choice([0.0, 1e-3, 5e-2, np.inf])), float(rng.choice([0.0, 1e-3, 5e-2, np.inf]))
+        with Capture() as cap:
+            try:
+                with np.errstate(all='ignore'):
+                    b, p = Baseline(x).jbcd(y, half_window=int(rng.integers(1, 5)), diff_order=d, max_iter=max_iter, tol=tol, tol_2=tol_2,
+                                            beta=float(10.0 ** int(rng.integers(0, 4))), gamma=float(10.0 ** int(rng.integers(-1, 2))))
+            except Exception as ex:
+                ctx.count('jbcd-loop-raised:' + type(ex).__name__)
+                continue
+        th = np.asarray(p['tol_history'], dtype=float)
+        if th.ndim != 2 or len(cap.solves) != 2 * len(th):
+            dis.append(Disagreement('c06.model', 'model:jbcd:trace', f'jbcd (N={n}, max_iter={max_iter}): {len(cap.solves)} solves for {len(th)} recorded passes',
+                                    {'n': n, 'max_iter': max_iter}, False))
+            continue
+        ctx.case(('jbcd-loop', n, d, max_iter, tol, tol_2), nontrivial=True)
+        ctx.count('loop-host:jbcd')
+        stops = ''.join('1' if (r_[0] < tol and r_[1] < tol_2) else '0' for r_ in th)
+        lines.append(f'c06.jbloop {max_iter + 1} {stops}')
+        metas.append(('jbloop', {'host': 'jbcd', 'kind': 'loop', 'n': n, 'd': d, 'lam': None, 'solver': None, 'step': 'returned pair', 'x': x.tolist(), 'y': y.tolist(),
+                                 'kw': {'max_iter': max_iter, 'tol': tol, 'tol_2': tol_2}},
+                      {'b': np.asarray(b), 's': np.asarray(p['signal']), 'len': len(th), 'outs': [sv['out'] for sv in cap.solves]}))
+    # 2-D assembled matrix: the sparse `lhs` handed to PenalizedSystem2D.direct_solve against the Lean model `asm2d`
+    # (kron(lam_r P_r, I) + kron(I, lam_c P_c) with main_diagonal + w); dyadic lam and weights, so the first solve is exact
+    for host in ('asls', 'arpls', 'airpls'):
+        for (m, n, dr, dc) in [(3, 3, 1, 2), (4, 5, 2, 1), (5, 4, 1, 3), (6, 5, 2, 2), (4, 7, 3, 2), (5, 5, 2, 3), (2, 6, 1, 2), (7, 3, 3, 1)]:
+            if not ctx.thorough and rng.random() < 0.5:
+                continue
+            x, z, Y = M.make_data2d(rng, m, n)
+            lamr, lamc = float(2.0 ** int(rng.integers(-3, 12))), float(2.0 ** int(rng.integers(-3, 12)))
+            W0 = np.round(rng.uniform(0.05, 1, (m, n)) * 64) / 64
+            caps = []
+            orig = wu2.PenalizedSystem2D.direct_solve
+
+            def ds2(obj, lhs, rhs, __orig=orig):
+                caps.append((np.array(lhs.toarray(), dtype=float), np.array(rhs, dtype=float, copy=True)))
+                return __orig(obj, lhs, rhs)
+            wu2.PenalizedSystem2D.direct_solve = ds2
+            try:
+                with Capture() as cap:
+                    with np.errstate(all='ignore'):
+                        getattr(Baseline2D(x, z), host)(Y, lam=(lamr, lamc), diff_order=(dr, dc), num_eigens=None, max_iter=1, tol=0.0, weights=W0)
+            except Exception as ex:
+                ctx.count('2d-asm-raised:' + type(ex).__name__)
+                continue
+            finally:
+                wu2.PenalizedSystem2D.direct_solve = orig
+            ctx.case(('2d-asm', host, m, n, dr, dc, lamr, lamc), nontrivial=True)
+            ctx.count('host2d-asm:' + host)
+            w_seq = [W0.ravel()] + [r.ravel() for r in cap.rules]
+            for k, (lhs2, rhs2) in enumerate(caps):
+                if k >= len(w_seq) or not np.all(np.isfinite(w_seq[k])):
+                    break
+                if not np.array_equal(rhs2, w_seq[k] * Y.ravel()):
+                    dis.append(Disagreement('c06.model', 'model:rhs2d', f'2-D {host} ({(m, n)}): the right-hand side handed to the solver is not w * y',
+                                            {'host': '2d.' + host, 'shape': [m, n], 'step': k}, False))
+                lines.append(f'c06.asm2d {m} {n} {dr} {dc} {q(lamr)} {q(lamc)} {qs(w_seq[k])}')
+                metas.append(('asm2d', {'host': '2d.' + host, 'kind': '2d', 'shape': [m, n], 'n': [m, n], 'd': [dr, dc], 'lam': [lamr, lamc], 'step': k, 'solver': None},
+                              lhs2, k == 0))
     # 2-D returned pairs (direct system): with tol = inf the run stops after its first solve, and when a run reports convergence,
     # the returned baseline and the returned weights must satisfy the documented system together
     for host in ('asls', 'airpls', 'arpls', 'iarpls', 'psalsa', 'lsrpls', 'brpls'):
@@ -337,6 +609,61 @@ def correspond(ctx):
                 dis.append(Disagreement('c06.berr', f'{meta["host"]}:system', f'{meta["host"]} (N={meta.get("n", meta.get("shape"))}, d={meta["d"]}, lam={meta["lam"]}, '
                                         f'solver={meta.get("solver")}, step {meta["step"]}): the baseline does not solve the documented system for the weights in '
                                         f'force (exact normwise backward error {be:.3g})', meta, True))
+        elif mt[0] in ('loop', 'brloop', 'jbloop'):
+            _, meta, obs = mt
+            toks = r.split(' ')
+            why = None
+            if mt[0] == 'loop':
+                plen, reason, sidx, bidx = int(toks[0]), toks[1], int(toks[2]), toks[3]
+                ctx.count('loop-stop:' + reason)
+                if plen != obs['len']:
+                    why = f'tol_history has {obs["len"]} entries, the loop model on the recorded decisions gives {plen} ({reason})'
+                elif bidx == '-' or int(bidx) >= len(obs['outs']) or not np.array_equal(obs['outs'][int(bidx)], obs['b'], equal_nan=True):
+                    why = f'the returned baseline is not the result of solve #{bidx} ({reason})'
+                elif sidx >= len(obs['w_seq']) or not np.array_equal(obs['w_seq'][sidx], obs['w'], equal_nan=True):
+                    why = (f'the returned weights are not iterate #{sidx} (the model: {reason}, baseline from solve #{bidx}'
+                           f'{", so the returned pair must be a solve pair" if reason != "exhausted" else ""})')
+                elif obs['a_seq'] is not None and not np.array_equal(obs['a_seq'][sidx], obs['alpha'], equal_nan=True):
+                    why = f'the returned alpha is not iterate #{sidx} ({reason})'
+            elif mt[0] == 'brloop':
+                bidx, widx = toks[0], int(toks[1])
+                ctx.count('brloop:' + ('data-returned' if bidx == '-' else 'pair'))
+                want_b = obs['y'] if bidx == '-' else obs['outs'][int(bidx)]
+                if not np.array_equal(want_b, obs['b'], equal_nan=True):
+                    why = f'the returned baseline is not {"the data" if bidx == "-" else "the result of solve #" + bidx}'
+                elif not np.array_equal(obs['w_seq'][widx], obs['w'], equal_nan=True):
+                    why = f'the returned weights are not those of solve #{widx} (the returned baseline is solve #{bidx})'
+            else:
+                plen, reason, vidx, sidx = int(toks[0]), toks[1], toks[2], toks[3]
+                ctx.count('jbloop-stop:' + reason)
+                if plen != obs['len']:
+                    why = f'tol_history has {obs["len"]} rows, the loop model on the recorded decisions gives {plen} ({reason})'
+                elif vidx == '-' or not np.array_equal(obs['outs'][2 * int(vidx) + 1], obs['b'], equal_nan=True):
+                    why = f'the returned baseline is not the baseline solve of pass {vidx}'
+                elif not np.array_equal(obs['outs'][2 * int(sidx)], obs['s'], equal_nan=True):
+                    why = f'the returned signal is not the signal solve of pass {sidx}'
+            if why:
+                dis.append(Disagreement('c06.pair', f'{meta["host"]}:returned-pair', f'{meta["host"]} (N={meta["n"]}, {meta["kw"]}): {why}',
+                                        meta, True))
+        elif mt[0] == 'asmjbcd':
+            _, meta, lhs, exact = mt
+            pred = np.array([[float(v) for v in parse_qs(row)] for row in r.split(';')])
+            # one rounding in c * integer, one in the addition on the main row (no cancellation: c >= 0, diag > 0): 4 eps; dyadic cases exactly
+            ok = pred.shape == lhs.shape and (np.array_equal(lhs, pred) if exact else np.allclose(lhs, pred, rtol=4 * EPS, atol=0))
+            if not ok:
+                dis.append(Disagreement('c06.model', f'model:asmjbcd:{meta["which"]}', f'jbcd (N={meta["n"]}, d={meta["d"]}, solver={meta["solver"]}, {meta["step"]}): the band '
+                                        f'array handed to the solver differs from the Lean assembly model' +
+                                        (f' (shape {lhs.shape} vs {pred.shape})' if pred.shape != lhs.shape else f' (max abs diff {float(np.max(np.abs(lhs - pred))):.3g})'),
+                                        {k: v for k, v in meta.items() if k not in ('x', 'y')}, False))
+        elif mt[0] == 'asm2d':
+            _, meta, lhs, exact = mt
+            pred = np.array([[float(v) for v in parse_qs(row)] for row in r.split(';')])
+            ok = pred.shape == lhs.shape and (np.array_equal(lhs, pred) if exact else np.allclose(lhs, pred, rtol=4 * EPS, atol=0))
+            if not ok:
+                dis.append(Disagreement('c06.model', 'model:asm2d', f'{meta["host"]} (shape {meta["shape"]}, diff_order={meta["d"]}, lam={meta["lam"]}, step '
+                                        f'{meta["step"]}): the sparse matrix handed to the solver differs from the Lean model of kron(lam_r P_r, I) + '
+                                        f'kron(I, lam_c P_c) + diag(w)' + ('' if pred.shape != lhs.shape else f' (max abs diff {float(np.max(np.abs(lhs - pred))):.3g})'),
+                                        meta, False))
         else:
             _, meta, lhs = mt
             pred = np.array([[float(v) for v in parse_qs(row)] for row in r.split(';')])
